@@ -25,7 +25,7 @@ UTIL_FNS = ["linear_cg", "minres", "lanczos_tridiag", "psd_safe_cholesky", "stab
             "bdsmm", "sparse_getitem", "sparse_repeat", "to_sparse", "apply_permutation", "inverse_permutation", "ciq", "dsmm",
             "f_solve", "f_inv_quad", "f_inv_quad_logdet", "f_root_decomposition", "f_root_inv_decomposition", "f_pivoted_cholesky",
             "f_add_diagonal", "f_add_jitter", "f_diagonalization", "f_sqrt_inv_matmul", "detach_", "requires_grad_", "torch_fn", "getitem_index_tensors",
-            "op_method", "caller_probe_vectors"]
+            "op_method", "caller_probe_vectors", "autograd_grad", "tiny_dense"]
 
 
 # ----------------------------------------------------------------------------------------------------
@@ -180,6 +180,24 @@ def gen_util(g, w):
         r = w.objs[o]
         nn = r.D.shape[-1]
         a = {"op": o, "rhs": T(g.randn(*(list(r.D.shape[:-2]) + [nn, rng.choice([1, 2])])), "rhs"), "inverse": rng.random() < 0.5}
+        if rng.random() < 0.5:
+            # quadrature nodes / weights re-used from an earlier call: caller-owned (c13-s11)
+            Q = rng.choice([2, 3])
+            obs = list(r.D.shape[:-2])
+            a["shifts"] = T(g.randn(*([Q + 1] + obs)).abs() + 0.3, "ciq shifts")
+            a["weights"] = T(g.randn(*([Q] + obs + [1, 1])), "ciq weights")
+            a["shift_offset"] = rng.choice([0, 0.25, 0.1])
+    elif fn == "autograd_grad":
+        names = ["inv_root_lanczos", "root_default", "root_lanczos", "solve", "logdet", "inv_quad_logdet", "diagonalization", "sqrt_inv_matmul", "matmul", "diag"]
+        k = rng.choice([1, 2, 2, 3])
+        picked = set(rng.sample(names, k))
+        a = {"A": psd(), "outs": [x for x in names if x in picked], "rhs": T(g.randn(*(batch + [n, 2])), "rhs"), "glayout": rng.choice(["contig", "transposed"])}
+    elif fn == "tiny_dense":
+        bb = rng.choice([[], [3], [2, 1]])
+        m = rng.choice([1, 1, 2])
+        a = {"A": T(g.psd(m, bb), "tiny psd matrix"), "which": rng.choice(["samples", "samples", "cholesky", "logdet", "solve", "root_decomposition", "root_inv_decomposition",
+                                                                  "inv_quad_logdet", "diagonalization", "sqrt_inv_matmul", "add_jitter_cholesky", "svd", "pivoted_cholesky"])}
+        a["rhs"] = T(g.randn(*(bb + [m, 2])), "rhs")
     elif fn.startswith("f_"):
         use_op = rng.random() < 0.5 and world_op() is not None
         if use_op:
@@ -370,8 +388,89 @@ def _run(w, fn, a, get):
         out = permutation.apply_permutation(M, **kw)
         return [out]
     if fn == "ciq":
-        solves, weights, _, _ = contour_integral_quad(get(a["op"]), get(a["rhs"]), inverse=a["inverse"])
+        if a.get("shifts"):
+            solves, weights, _, _ = contour_integral_quad(get(a["op"]), get(a["rhs"]), inverse=a["inverse"], shifts=get(a["shifts"]), weights=get(a["weights"]),
+                                                          shift_offset=a.get("shift_offset", 0))
+        else:
+            solves, weights, _, _ = contour_integral_quad(get(a["op"]), get(a["rhs"]), inverse=a["inverse"])
         return [solves, weights]
+    if fn == "autograd_grad":
+        # the gradient tensors a caller passes to autograd.grad / backward are caller-owned (c13-s12)
+        from linear_operator.operators import DenseLinearOperator
+
+        leaf = get(a["A"]).detach().clone().requires_grad_(True)  # harness-owned leaf
+        op = DenseLinearOperator(leaf)
+        rhs = get(a["rhs"])
+        outs = []
+        for name in a["outs"]:
+            if name == "inv_root_lanczos":
+                outs.append(op.root_inv_decomposition(method="lanczos").root.to_dense())
+            elif name == "root_default":
+                outs.append(op.root_decomposition().root.to_dense())
+            elif name == "root_lanczos":
+                outs.append(op.root_decomposition(method="lanczos").root.to_dense())
+            elif name == "solve":
+                outs.append(op.solve(rhs))
+            elif name == "logdet":
+                outs.append(op.logdet())
+            elif name == "inv_quad_logdet":
+                iq, ld = op.inv_quad_logdet(rhs, logdet=True)
+                outs.extend([iq, ld])
+            elif name == "diagonalization":
+                ev, _ = op.diagonalization()
+                outs.append(ev)
+            elif name == "sqrt_inv_matmul":
+                outs.append(op.sqrt_inv_matmul(rhs))
+            elif name == "matmul":
+                outs.append(op.matmul(rhs))
+            elif name == "diag":
+                outs.append(op.diagonal())
+        outs = [o_ for o_ in outs if torch.is_tensor(o_) and o_.requires_grad]
+        gen_ = torch.Generator().manual_seed(1234 + len(outs))
+        gs = []
+        for o_ in outs:
+            if a.get("glayout") == "transposed" and o_.dim() >= 2:
+                g_ = seams.REAL["randn"](*o_.mT.shape, dtype=o_.dtype, generator=gen_).mT
+            else:
+                g_ = seams.REAL["randn"](*o_.shape, dtype=o_.dtype, generator=gen_)
+            gs.append(g_)
+        w._adhoc_args = [(f"grad_outputs[{j}] for {a['outs']}", g_, g_.clone(), g_._version) for j, g_ in enumerate(gs)]
+        if not outs:
+            return []
+        return list(x for x in torch.autograd.grad(outs, [leaf], grad_outputs=gs, allow_unused=True) if x is not None)
+    if fn == "tiny_dense":
+        # 1 x 1 / 2 x 2 operators take special-cased early exits (c13-s13)
+        from linear_operator.operators import DenseLinearOperator
+
+        op = DenseLinearOperator(get(a["A"]))
+        wh = a["which"]
+        rhs = get(a["rhs"])
+        if wh == "samples":
+            return [op.zero_mean_mvn_samples(3), op.zero_mean_mvn_samples(2)]
+        if wh == "cholesky":
+            return [op.cholesky().to_dense()]
+        if wh == "logdet":
+            return [op.logdet()]
+        if wh == "solve":
+            return [op.solve(rhs)]
+        if wh == "root_decomposition":
+            return [op.root_decomposition().root.to_dense()]
+        if wh == "root_inv_decomposition":
+            return [op.root_inv_decomposition().root.to_dense()]
+        if wh == "inv_quad_logdet":
+            return list(op.inv_quad_logdet(rhs, logdet=True))
+        if wh == "diagonalization":
+            ev, evec = op.diagonalization()
+            return [ev, evec.to_dense() if isinstance(evec, LinearOperator) else evec]
+        if wh == "sqrt_inv_matmul":
+            return [op.sqrt_inv_matmul(rhs)]
+        if wh == "add_jitter_cholesky":
+            return [op.add_jitter(1e-3).cholesky().to_dense()]
+        if wh == "svd":
+            U_, S_v, V_ = op.svd()
+            return [S_v]
+        if wh == "pivoted_cholesky":
+            return [op.pivoted_cholesky(rank=1)]
     if fn.startswith("f_"):
         inp = get(a["input"])
         if fn == "f_solve":
@@ -596,6 +695,14 @@ def op_util(w, i, op):
         for _, t_, snap_, base_ in w.returned:
             snap_.requires_grad = base_.requires_grad
     w.check_conservation(fn)
+    adhoc = getattr(w, "_adhoc_args", None)
+    if adhoc:
+        w._adhoc_args = None
+        for desc, t_, before, ver in adhoc:
+            if w.mode == "C13" and not (t_._version == ver and torch.equal(t_, before)):
+                w.violate("C13", "tensor-mutated", "contig", fn, f"step {i} ({fn}): caller tensor {desc} changed: _version {ver} -> {t_._version}; "
+                          f"max abs change {float((t_ - before).abs().max()) if t_.numel() else 0.0:.3g}")
+                break
     sa = getattr(w, "_sparse_arg", None)
     if sa is not None:
         w._sparse_arg = None
